@@ -35,7 +35,7 @@ type Case struct {
 
 // string key domain: includes characters JSON must escape and one key whose
 // text is contained in another
-var strKeys = []string{"a", "b", "ab", "q\"x", "é<&", " ", "0", "b\\"}
+var strKeys = []string{"a", "b", "ab", "q\"x", "é<&", " ", "0", "b\\", "u\x1f4", "\U000e0001"}
 
 func strKey(i int) string { return strKeys[((i%len(strKeys))+len(strKeys))%len(strKeys)] }
 func intKey(i int) int    { return i }
